@@ -408,6 +408,11 @@ class SFNTWriter(object):
         return checksumadjustment
 
     def writeMasterChecksum(self, directory):
+        if self.tables["head"].length < 12:
+            # Too short to hold the checkSumAdjustment field (e.g. a damaged
+            # 'head' kept as raw bytes): do not write past its end into the
+            # table that follows.
+            return
         checksumadjustment = self._calcMasterChecksum(directory)
         # write the checksum to the file
         self.file.seek(self.tables["head"].offset + 8)
